@@ -16,7 +16,7 @@ Idx(seq) == 1..Len(seq)
 
 \* ---- C07: every public return in the window leaves the radio listening on the node's addresses
 C07(w) == LET bad == {i \in Idx(w.rets) : ~Listening(T.projs[w.rets[i].proj], w.rets[i].addr, w.rets[i].lvl,
-                                                       AllowMc(w.rets[i].n), T.prefix, T.suffix)} IN
+                                                       w.rets[i].amc, T.prefix, T.suffix)} IN   \* amc: allow_multicast at that moment
           IF bad = {} THEN OK
           ELSE LET i == CHOOSE j \in bad : \A k \in bad : j <= k IN
                <<"C07.Listening", w.rets[i].api \o "() returned on node " \o ToString(w.rets[i].addr) \o " without the radio listening">>
